@@ -353,7 +353,11 @@ class CoreEval(Harness):
             return False
         return isinstance(lsh[0], list) or CoreEval.has_pair_head(lsh[0]) or CoreEval.has_pair_head(lsh[1])
 
+    NAME_CHARS = [ord(c) for c in 'qaicfrlx=+-*/']
+
     classes = {
         # F7: ((X) . operands) — a pair in operator position
         'pair_in_operator_position': lambda case, inp: z3.BoolVal(CoreEval.has_pair_head(case['prog'])),
+        # F9: data that becomes code through `a` and spells an operator *name* (0x71 'q', 0x61 'a', ...)
+        'operator_spelled_by_name': lambda case, inp: z3.Or(*[b[0].e == c for b in inp['env'] for c in CoreEval.NAME_CHARS]),
     }
